@@ -682,21 +682,41 @@ package saml
 //@    sameAttrs(src, session.CustomAttributes) || forall(0, len(src), func(k int) bool { return attrFromSession(src[k], session) })
 //@ assert@call[C06,C19] append #0 (dst []AttributeValue, src []AttributeValue) only_session_groups:
 //@    forall(0, len(src), func(k int) bool { return valueFromSession(src[k].Value, session) })
-//@ -- each fixed attribute carries the session field it is named after, and is emitted exactly when that field is non-empty
-//@ -- (C19: the assertion describes the user as stored at login)
+//@ -- each fixed attribute carries the session field it is named after, and is emitted only when that field is non-empty
+//@ -- (C19: the assertion describes the user as stored at login). Stated about every attribute appended under the URI name
+//@ -- format with that name - not about the n-th append, whose number changes with every re-arrangement of the function; the
+//@ -- attributes a service provider asks for are answered under the basic or unspecified format only
+//@ -- (the session's own custom attributes, appended wholesale, are whatever the session says they are)
+//@ go func fixedAttr(src []Attribute, s *Session, name string) bool {
+//@    return !sameAttrs(src, s.CustomAttributes) && len(src) == 1 && src[0].NameFormat == "urn:oasis:names:tc:SAML:2.0:attrname-format:uri" && src[0].Name == name }
 //@ go func oneAttr(src []Attribute, friendly string, name string, value string) bool {
 //@    return len(src) == 1 && src[0].FriendlyName == friendly && src[0].Name == name && len(src[0].Values) == 1 &&
 //@      src[0].Values[0].Value == value && value != "" }
-//@ assert@call[C06,C19] append #6 (dst []Attribute, src []Attribute) attr_uid: oneAttr(src, "uid", "urn:oid:0.9.2342.19200300.100.1.1", session.UserName)
-//@ assert@call[C06,C19] append #7 (dst []Attribute, src []Attribute) attr_mail: oneAttr(src, "mail", "urn:oid:0.9.2342.19200300.100.1.3", session.UserEmail)
-//@ assert@call[C06,C19] append #8 (dst []Attribute, src []Attribute) attr_eppn:
+//@ assert@call[C06,C19] append #each (dst []Attribute, src []Attribute) attr_uid:
+//@    fixedAttr(src, session, "urn:oid:0.9.2342.19200300.100.1.1") ==> oneAttr(src, "uid", "urn:oid:0.9.2342.19200300.100.1.1", session.UserName)
+//@ assert@call[C06,C19] append #each (dst []Attribute, src []Attribute) attr_mail:
+//@    fixedAttr(src, session, "urn:oid:0.9.2342.19200300.100.1.3") ==> oneAttr(src, "mail", "urn:oid:0.9.2342.19200300.100.1.3", session.UserEmail)
+//@ assert@call[C06,C19] append #each (dst []Attribute, src []Attribute) attr_eppn:
+//@    fixedAttr(src, session, "urn:oid:1.3.6.1.4.1.5923.1.1.1.6") ==>
 //@    (session.EduPersonPrincipalName != "" && oneAttr(src, "eduPersonPrincipalName", "urn:oid:1.3.6.1.4.1.5923.1.1.1.6", session.EduPersonPrincipalName)) ||
 //@    (session.EduPersonPrincipalName == "" && oneAttr(src, "eduPersonPrincipalName", "urn:oid:1.3.6.1.4.1.5923.1.1.1.6", session.UserEmail))
-//@ assert@call[C06,C19] append #9 (dst []Attribute, src []Attribute) attr_sn: oneAttr(src, "sn", "urn:oid:2.5.4.4", session.UserSurname)
-//@ assert@call[C06,C19] append #10 (dst []Attribute, src []Attribute) attr_given_name: oneAttr(src, "givenName", "urn:oid:2.5.4.42", session.UserGivenName)
-//@ assert@call[C06,C19] append #11 (dst []Attribute, src []Attribute) attr_cn: oneAttr(src, "cn", "urn:oid:2.5.4.3", session.UserCommonName)
-//@ assert@call[C06,C19] append #12 (dst []Attribute, src []Attribute) attr_affiliation: oneAttr(src, "scopedAffiliation", "urn:oid:1.3.6.1.4.1.5923.1.1.1.9", session.UserScopedAffiliation)
-//@ assert@call[C06,C19] append #13 (dst []Attribute, src []Attribute) attr_custom: sameAttrs(src, session.CustomAttributes)
+//@ assert@call[C06,C19] append #each (dst []Attribute, src []Attribute) attr_sn:
+//@    fixedAttr(src, session, "urn:oid:2.5.4.4") ==> oneAttr(src, "sn", "urn:oid:2.5.4.4", session.UserSurname)
+//@ assert@call[C06,C19] append #each (dst []Attribute, src []Attribute) attr_given_name:
+//@    fixedAttr(src, session, "urn:oid:2.5.4.42") ==> oneAttr(src, "givenName", "urn:oid:2.5.4.42", session.UserGivenName)
+//@ assert@call[C06,C19] append #each (dst []Attribute, src []Attribute) attr_cn:
+//@    fixedAttr(src, session, "urn:oid:2.5.4.3") ==> oneAttr(src, "cn", "urn:oid:2.5.4.3", session.UserCommonName)
+//@ assert@call[C06,C19] append #each (dst []Attribute, src []Attribute) attr_affiliation:
+//@    fixedAttr(src, session, "urn:oid:1.3.6.1.4.1.5923.1.1.1.9") ==> oneAttr(src, "scopedAffiliation", "urn:oid:1.3.6.1.4.1.5923.1.1.1.9", session.UserScopedAffiliation)
+//@ -- and nothing else goes out under the URI name format except the group memberships and the subject identifier
+//@ assert@call[C06,C19] append #each (dst []Attribute, src []Attribute) attr_known_names:
+//@    !sameAttrs(src, session.CustomAttributes) && len(src) == 1 && src[0].NameFormat == "urn:oasis:names:tc:SAML:2.0:attrname-format:uri" ==>
+//@    src[0].Name == "urn:oid:0.9.2342.19200300.100.1.1" || src[0].Name == "urn:oid:0.9.2342.19200300.100.1.3" ||
+//@    src[0].Name == "urn:oid:1.3.6.1.4.1.5923.1.1.1.6" || src[0].Name == "urn:oid:2.5.4.4" || src[0].Name == "urn:oid:2.5.4.42" ||
+//@    src[0].Name == "urn:oid:2.5.4.3" || src[0].Name == "urn:oid:1.3.6.1.4.1.5923.1.1.1.9" || src[0].Name == "urn:oid:1.3.6.1.4.1.5923.1.1.1.1" ||
+//@    src[0].Name == "urn:oasis:names:tc:SAML:attribute:subject-id"
+//@ -- whatever is appended wholesale is the session's list of custom attributes
+//@ assert@call[C06,C19] append #each (dst []Attribute, src []Attribute) attr_custom: len(src) != 1 ==> sameAttrs(src, session.CustomAttributes)
 //@ loop 3 vars groupMemberAttributeValues []AttributeValue
 //@ invariant[C06,C19] groups_only: forall(0, len(groupMemberAttributeValues), func(k int) bool { return valueFromSession(groupMemberAttributeValues[k].Value, session) })
 
